@@ -58,6 +58,46 @@ fn shared_namespace_files() -> (Vec<(String, String)>, Vec<String>) {
     (files, names)
 }
 
+/// Workspace mode over several service files: a chain of services, each extending the service of
+/// the previous file, all but the last in one namespace, plus a types file that is only included.
+/// The crate of every service then depends on several other crates whose items meet in one module.
+fn service_chain_files() -> (Vec<(String, String)>, usize) {
+    let mut files = vec![];
+    let n = 5usize;
+    let mut main = format!("include \"svc{}.thrift\"\ninclude \"types.thrift\"\nnamespace rs ws.main\nstruct Query {{ 1: required string text, 2: optional types.Colour colour }}\nservice Main extends svc{}.Svc{} {{ types.Page search(1: Query q, 2: types.Extra extra), types.Item get(1: i64 id) }}\n", n - 1, n - 1, n - 1);
+    main.push_str("service Second extends svc1.Svc1 { types.Item other(1: svc2.Req2 r) }\n");
+    main = format!("include \"svc1.thrift\"\ninclude \"svc2.thrift\"\n{}", main);
+    files.push(("main.thrift".to_string(), main));
+    for i in (0..n).rev() {
+        let mut t = String::new();
+        if i > 0 {
+            t.push_str(&format!("include \"svc{}.thrift\"\n", i - 1));
+        }
+        t.push_str("include \"types.thrift\"\nnamespace rs ws.shared\n");
+        t.push_str(&format!("struct Req{i} {{ 1: required string token, 2: optional types.Item item }}\nstruct Resp{i} {{ 1: required i64 at }}\nstruct Health{i} {{ 1: required bool ok }}\n"));
+        if i > 0 {
+            t.push_str(&format!("service Svc{i} extends svc{}.Svc{} {{ Resp{i} ping{i}(1: Req{i} req), Health{i} health{i}() }}\n", i - 1, i - 1));
+        } else {
+            t.push_str("service Svc0 { Resp0 ping0(1: Req0 req), Health0 health0() }\n");
+        }
+        files.push((format!("svc{}.thrift", i), t));
+    }
+    files.push(("types.thrift".to_string(), "namespace rs ws.shared\nstruct Item { 1: required i64 id, 2: optional string name }\nstruct Extra { 1: required i32 weight }\nstruct Page { 1: required list<Item> items, 2: optional Extra extra }\nenum Colour { RED = 1, GREEN = 2 }\n".to_string()));
+    (files, n + 1)
+}
+
+/// Map literals that repeat a key, as constants, defaults, nested values and list elements: what is
+/// emitted for them must not depend on the iteration order of an unordered map.
+fn repeated_key_text() -> String {
+    let mut t = String::from("namespace rs dupmap\n");
+    t.push_str("const map<string, i32> M1 = {\"alpha\": 1, \"beta\": 2, \"gamma\": 3, \"alpha\": 4, \"delta\": 5, \"beta\": 6, \"eps\": 7, \"zeta\": 8}\n");
+    t.push_str("const map<i32, string> M2 = {1: \"a\", 2: \"b\", 3: \"c\", 1: \"d\", 4: \"e\", 5: \"f\", 6: \"g\", 7: \"h\"}\n");
+    t.push_str("const list<map<string, i32>> L = [{\"x\": 1, \"y\": 2, \"x\": 3, \"z\": 4, \"w\": 5, \"v\": 6}]\n");
+    t.push_str("const map<string, map<string, i32>> N = {\"o\": {\"a\": 1, \"b\": 2, \"a\": 3, \"c\": 4, \"d\": 5, \"e\": 6}, \"p\": {\"k\": 1}, \"o\": {\"q\": 1}, \"r\": {}, \"s\": {}, \"t\": {}}\n");
+    t.push_str("struct D { 1: map<string, i32> m = {\"k1\": 1, \"k2\": 2, \"k3\": 3, \"k1\": 9, \"k4\": 4, \"k5\": 5, \"k6\": 6}, 2: optional map<i64, list<string>> n = {1: [\"a\"], 2: [], 1: [\"b\"], 3: [], 4: [], 5: []} }\n");
+    t
+}
+
 /// Several included files in one namespace, each with enums and structs; built with
 /// ignore_unused (the default of the builder) and `touch` entries for every file, so that the
 /// set of reachable items is assembled from several roots.
@@ -140,6 +180,11 @@ fn files_of(c: &Case) -> (bool, Vec<(String, String)>, usize) {
     match c.special {
         Some(0) => return (false, shared_namespace_files().0, 1),
         Some(2) => return (false, touch_files().0, 1),
+        Some(3) => {
+            let (f, n) = service_chain_files();
+            return (false, f, n);
+        }
+        Some(4) => return (false, vec![("dupmap.thrift".to_string(), repeated_key_text())], 1),
         Some(_) => return (false, vec![("cycles.thrift".to_string(), cycle_groups_text())], 1),
         None => {}
     }
@@ -208,6 +253,9 @@ fn build_once(c: &Case, mode: Mode, slot: &str, threads: usize) -> Result<BTreeM
                 args.push(idl.join(&f.0).to_string_lossy().into());
             }
             args.push("--workspace".into());
+            if c.special == Some(3) {
+                args.push("--split".into());
+            }
         }
         _ => {
             args.push(out_root.join("gen.rs").to_string_lossy().into());
@@ -324,7 +372,7 @@ pub fn run(ctx: &Ctx) -> i32 {
     for (n, m) in crowds {
         cases.push(Case { raw: None, kitchen: None, mode: *m, proto: None, pkitchen: None, crowded: Some(*n), special: None });
     }
-    for (sp, m) in [(0u8, Mode::Single), (0, Mode::Split), (1, Mode::Single), (1, Mode::Split), (2, Mode::Single), (2, Mode::Split)] {
+    for (sp, m) in [(0u8, Mode::Single), (0, Mode::Split), (1, Mode::Single), (1, Mode::Split), (2, Mode::Single), (2, Mode::Split), (3, Mode::Workspace), (4, Mode::Single), (4, Mode::Split)] {
         cases.push(Case { raw: None, kitchen: None, mode: m, proto: None, pkitchen: None, crowded: None, special: Some(sp) });
     }
     let runs: Vec<usize> = if ctx.tier == vcore::evidence::Tier::Quick { vec![1, 16, 2, 8, 3, 4, 16, 1] } else { (0..48).map(|i| [1, 16, 2, 8, 3, 4, 5, 7][i % 8]).collect() };
